@@ -97,6 +97,15 @@ struct Derived_Tracked : Tracked {
   }
 };
 
+// an object with a data member of the instrumented class: references into it are only valid while the holder lives
+struct Holder {
+  Tracked inner;
+  explicit Holder(int t)
+      : inner(t) {
+  }
+  Tracked &get_inner() { return inner; }
+};
+
 int main(int argc, char **argv) {
   return vh::run_main(argc, argv, [](size_t, const vh::Fields &f) -> vh::Fields {
     if (f.size() < 2 || f[0] != "T") return {"bad-case"};
@@ -128,6 +137,16 @@ int main(int argc, char **argv) {
       chai->add(fun([](std::shared_ptr<Tracked> t) { return t->touch(); }), "by_shared");
       chai->add(fun([](const std::shared_ptr<const Tracked> &t) { return t->touch(); }), "by_cshared");
       chai->add(fun([](int tag) { return Tracked(tag); }), "make_value");
+      // functions that hand back a reference / pointer to their own argument
+      chai->add(fun([](const Tracked &t) -> const Tracked & { return t; }), "pick_cref");
+      chai->add(fun([](Tracked &t) -> Tracked & { return t; }), "pick_ref");
+      chai->add(fun([](Tracked *t) -> Tracked * { return t; }), "pick_ptr");
+      chai->add(user_type<Holder>(), "Holder");
+      chai->add(constructor<Holder(int)>(), "Holder");
+      chai->add(constructor<Holder(const Holder &)>(), "Holder");
+      chai->add(fun(&Holder::inner), "inner");
+      chai->add(fun(&Holder::get_inner), "get_inner");
+      chai->add(fun([](int tag) { return Holder(tag); }), "make_holder");
       chai->add(fun([](int tag) { return std::make_shared<Tracked>(tag); }), "make_shared_t");
       chai->add(fun([](int tag) { return std::make_unique<Tracked>(tag); }), "make_unique_t");
       chai->add(fun([&kept](const std::shared_ptr<Tracked> &t) { kept.push_back(t); }), "keep");
